@@ -58,6 +58,18 @@ func drawC14(t *rapid.T) *C14Case {
 	switch c.Kind {
 	case "area":
 		c.Path = drawPoolPath(t, 0, 8)
+		if rapid.IntRange(0, 3).Draw(t, "fullDomain") == 0 {
+			// the largest areas the domain admits: a box hugging the limits, corners optionally cut
+			e := func() int64 {
+				return rapid.SampledFrom([]int64{0, 1, 1000, 1 << 20, 1 << 26, 1 << 27}).Draw(t, "inset") * rapid.Int64Range(0, 3).Draw(t, "insetMul")
+			}
+			x0, x1, y0, y1 := -maxC+e(), maxC-e(), -maxC+e(), maxC-e()
+			cut := rapid.SampledFrom([]int64{0, 0, 1, 1 << 10, 1 << 25}).Draw(t, "cut")
+			c.Path = Path{{X: x0 + cut, Y: y0}, {X: x1 - cut, Y: y0}, {X: x1, Y: y0 + cut}, {X: x1, Y: y1 - cut}, {X: x1 - cut, Y: y1}, {X: x0 + cut, Y: y1}, {X: x0, Y: y1 - cut}, {X: x0, Y: y0 + cut}}
+			if rapid.Bool().Draw(t, "fullRev") {
+				c.Path = c2.ReversePath(c.Path)
+			}
+		}
 		for i, n := 0, rapid.IntRange(0, 2).Draw(t, "nMore"); i < n; i++ {
 			c.More = append(c.More, drawPoolPath(t, 0, 6))
 		}
